@@ -90,6 +90,17 @@ def stress_api(r, idx):
                                    {"selector": "google.cloud.location.Locations.ListLocations", "get": "/v1/{name=projects/*}/locations"},
                                    {"selector": "google.iam.v1.IAMPolicy.GetIamPolicy", "post": "/v1/{resource=projects/*}:getIamPolicy", "body": "*"}]}}
         feats.append("mixins")
+    if idx % 2 == 1:
+        # fields with special annotations whose mock / sample values are rendered into the emitted tests and snippets
+        from google.api import field_info_pb2, field_behavior_pb2
+        for m in main.proto.message_type[:6]:
+            for nm, num in (("uid", 160), ("request_id", 161)):
+                if nm not in [x.name for x in m.field]:
+                    f = m.field.add(); f.name, f.number, f.label, f.type = nm, num, 1, 9
+                    f.options.Extensions[field_info_pb2.field_info].format = field_info_pb2.FieldInfo.UUID4
+            f = m.field.add(); f.name, f.number, f.label, f.type = "address_v4", 162, 1, 9
+            f.options.Extensions[field_info_pb2.field_info].format = field_info_pb2.FieldInfo.IPV4
+        feats.append("uuid4-and-ip-formatted-fields")
     api.extra_targets = []
     if idx % 3 != 2:
         # several proto sub-packages of the API package (the generator walks them when it emits the %sub templates)
